@@ -54,9 +54,9 @@ func init() {
 		"(*strings.Builder).WriteByte":   extBuilderWriteByte,
 		"(*strings.Builder).WriteRune":   extBuilderWriteRune,
 		"(*strings.Builder).Write":       extBuilderWrite,
-		"(*strings.Builder).Grow":        func(fr *frame, a []value) value { return nil },
+		"(*strings.Builder).Grow":        extBuilderGrow,
 		"(*strings.Builder).Len":         extBuilderLen,
-		"(*strings.Builder).Cap":         extBuilderLen,
+		"(*strings.Builder).Cap":         extBuilderCap,
 		"(*strings.Builder).Reset":       extBuilderReset,
 		"(*strings.Builder).copyCheck":   func(fr *frame, a []value) value { return nil },
 
@@ -672,6 +672,26 @@ func extBuilderWriteRune(fr *frame, a []value) value {
 func extBuilderLen(fr *frame, a []value) value {
 	b, _ := (*builderBuf(a[0])).([]value)
 	return len(b)
+}
+
+func extBuilderCap(fr *frame, a []value) value {
+	b, _ := (*builderBuf(a[0])).([]value)
+	return cap(b)
+}
+
+func extBuilderGrow(fr *frame, a []value) value {
+	n := asInt64(a[1])
+	if n < 0 {
+		panic(targetPanic{iface{fr.i.runtimeErrorString, "strings.Builder.Grow: negative count"}})
+	}
+	bp := builderBuf(a[0])
+	b, _ := (*bp).([]value)
+	if int64(cap(b)-len(b)) < n {
+		nb := make([]value, len(b), 2*cap(b)+int(n))
+		copy(nb, b)
+		*bp = nb
+	}
+	return nil
 }
 
 func extBuilderReset(fr *frame, a []value) value {
